@@ -27,7 +27,7 @@ def WT : Op → List CVal → Prop
   | .bnot, vs | .neg, vs | .reverse, vs => ∃ w x, 0 < w ∧ vs = [.bv x w]
   | .extract hi lo, vs => ∃ w x, lo ≤ hi ∧ hi < w ∧ vs = [.bv x w]
   | .zeroExt _, vs | .signExt _, vs => ∃ w x, 0 < w ∧ vs = [.bv x w]
-  | .concat, vs => ∀ v ∈ vs, ∃ x w, v = .bv x w
+  | .concat, vs => vs ≠ [] ∧ ∀ v ∈ vs, ∃ x w, v = .bv x w
   | .ite, vs => ∃ c t f, vs = [.bool c, t, f] ∧
       ((∃ x y w, t = .bv x w ∧ f = .bv y w) ∨ (∃ a b, t = .bool a ∧ f = .bool b))
   | .and, vs | .or, vs => vs ≠ [] ∧ ∀ v ∈ vs, ∃ b, v = .bool b
@@ -169,13 +169,14 @@ theorem C04_fold_documented (op : Op) (vs : List CVal) (h : WT op vs) : Document
     obtain ⟨w, x, hw, rfl⟩ := h
     simp [foldOp, zeroExt, signExt, bind, Except.bind, pure, Except.pure, Documented]
   case concat =>
+    replace h := h.2
     simp only [foldOp]
-    have : (vs.filterMap fun v => match v with | .bv x w => some (x, w) | _ => none).length = vs.length := by
+    have : (vs.filterMap pairOf).length = vs.length := by
       induction vs with
       | nil => rfl
       | cons v vs ih =>
         obtain ⟨x, w, rfl⟩ := h v (List.mem_cons_self ..)
-        simp [List.filterMap, ih (fun u hu => h u (List.mem_cons_of_mem _ hu))]
+        simp [List.filterMap, pairOf, ih (fun u hu => h u (List.mem_cons_of_mem _ hu))]
     split
     · simp [Documented]
     · contradiction
